@@ -3,10 +3,10 @@
 
 use crate::api::{Cfg, Sp};
 use crate::doc::*;
-use crate::refmodel::{self, rpair, rscan, rtag};
+use crate::refmodel::{self, rscan, rtag};
 use crate::util::Rng;
 
-pub const DELIMS: [(&str, &str); 15] = [
+pub const DELIMS: [(&str, &str); 18] = [
     ("<!-- <", "> -->"),
     ("/* <", "> */"),
     ("// --", "-- //"),
@@ -22,6 +22,22 @@ pub const DELIMS: [(&str, &str); 15] = [
     ("(*", "*)"),
     ("aab", "bba"),
     ("#<", ">#"),
+    ("=<", ">="),
+    ("'<", ">'"),
+    ("e\u{301}<", ">e\u{301}"),
+];
+
+/// Further delimiter pairs for the tokenizer monitors only (C07 / C08): prefixes of each other,
+/// the end delimiter occurring inside the start delimiter, blanks and line breaks.
+pub const TOK_EXTRA_DELIMS: [(&str, &str); 8] = [
+    ("<<", "<"),
+    ("<", "<<"),
+    ("ab", "b"),
+    ("[x]", "]"),
+    ("\n", "\n"),
+    (" ", " "),
+    ("--", "-"),
+    ("<", "/>"),
 ];
 
 pub const TAG_NAMES: [(&str, &str); 5] = [
@@ -80,9 +96,6 @@ pub fn admit(text: &str, sp: &Sp, cfg: &Cfg) -> Result<Rendered, &'static str> {
             let body = &text[a + sp.ds.len()..b - sp.de.len()];
             match rtag(body) {
                 Some(t) => {
-                    if t.0.starts_with("//") {
-                        return Err("tag name starts with //");
-                    }
                     let mut names: Vec<&str> = t.1.iter().map(|a| a.0.as_str()).collect();
                     names.sort();
                     if names.windows(2).any(|w| w[0] == w[1]) {
@@ -97,7 +110,9 @@ pub fn admit(text: &str, sp: &Sp, cfg: &Cfg) -> Result<Rendered, &'static str> {
         }
     }
     let names: Vec<Option<String>> = tags.iter().map(|t| t.as_ref().map(|t| t.0.clone())).collect();
-    let pairs = rpair(&names);
+    let Some(pairs) = refmodel::rpair_checked(&names) else {
+        return Err("a `//name` tag while `name` or `/name` is open (which element it closes is unspecified)");
+    };
     // build elements in order of opening tag; parents by containment
     let mut elems: Vec<ElemInfo> = vec![];
     let mut by_open: Vec<(usize, usize)> = pairs.clone();
@@ -569,6 +584,77 @@ fn unwrap_elem(p: &UnwrapParams, r: &mut Rng, depth: usize, tag_indent: usize, l
         r.next(),
         ch,
     )
+}
+
+// ------------------------------------------------------------------ G-lineseq
+
+/// Line atoms of the bounded-exhaustive line-sequence generator: every document is a sequence
+/// of whole lines; closers close the innermost open element (sequences that close with nothing
+/// open, or end with something open, are not documents of this generator).
+pub const LINE_ATOMS: [&str; 10] = [
+    "code0", "code1", "blank", "wsonly", "openR", "openP", "openU", "openR1", "close", "code2",
+];
+
+/// Build the document for one atom sequence. `with_unwrap == false` rejects sequences that use
+/// the unwrap opener. Ready default elements get level 1, unwrap-blocks level 2 (both ready at
+/// STEP = 2, but at different steps of a history), pending ones level 5.
+pub fn lineseq_doc(idx: &[usize], final_nl: bool, with_unwrap: bool) -> Option<Vec<Piece>> {
+    // stack of (children so far, kind, level, unwrap, indent string)
+    struct Open {
+        children: Vec<Piece>,
+        level: u8,
+        unwrap: bool,
+        ind: &'static str,
+        n: usize,
+    }
+    let mut stack: Vec<Open> = vec![];
+    let mut top: Vec<Piece> = vec![];
+    let mut count = 0usize;
+    fn push(stack: &mut [Open], top: &mut Vec<Piece>, p: Piece) {
+        match stack.last_mut() {
+            Some(o) => o.children.push(p),
+            None => top.push(p),
+        }
+    }
+    for (k, a) in idx.iter().enumerate() {
+        let nl = if k == 0 { "" } else { "\n" };
+        match LINE_ATOMS[*a] {
+            "code0" => push(&mut stack, &mut top, text(format!("{nl}a{k}();"))),
+            "code1" => push(&mut stack, &mut top, text(format!("{nl}  b{k}();"))),
+            "code2" => push(&mut stack, &mut top, text(format!("{nl}    c{k}(); "))),
+            "blank" => push(&mut stack, &mut top, text(nl.to_string())),
+            "wsonly" => push(&mut stack, &mut top, text(format!("{nl}  "))),
+            "openR" | "openP" | "openU" | "openR1" => {
+                let (level, unwrap, ind) = match LINE_ATOMS[*a] {
+                    "openR" => (1u8, false, ""),
+                    "openP" => (5, false, ""),
+                    "openU" => (2, true, ""),
+                    _ => (1, false, "  "),
+                };
+                if unwrap && !with_unwrap {
+                    return None;
+                }
+                push(&mut stack, &mut top, text(format!("{nl}{ind}")));
+                count += 1;
+                stack.push(Open { children: vec![], level, unwrap, ind, n: count });
+            }
+            _ => {
+                // close the innermost open element
+                let mut o = stack.pop()?;
+                o.children.push(text(format!("{nl}{}", o.ind)));
+                let kind = if o.n % 2 == 0 { Kind::Tl } else { Kind::Mk };
+                let e = elem(kind, o.level, false, o.unwrap, 0x5eed_0000 + o.n as u64 * 7919, o.children);
+                push(&mut stack, &mut top, e);
+            }
+        }
+    }
+    if !stack.is_empty() || count == 0 {
+        return None;
+    }
+    if final_nl {
+        top.push(text("\n"));
+    }
+    Some(top)
 }
 
 // ------------------------------------------------------------------ G-mut
